@@ -84,13 +84,19 @@ func (r *recorder) on(label string) {
 // sentinel and drains up to it.
 func recoverSnapshot(snap dqh.Snapshot, max, syncEvery int64) (run [][]byte, err error) {
 	run, err = recoverSnapshotBounded(snap, max, syncEvery, 10*time.Second)
-	if err != nil && strings.Contains(err.Error(), "hung") {
+	if err != nil && strings.Contains(err.Error(), "hung") && !hangConfirmed {
 		// a wall-clock bound is no verdict on a busy machine: the same snapshot once more, with a bound no starved
-		// scheduler explains; only a repeat is reported
-		return recoverSnapshotBounded(snap, max, syncEvery, 120*time.Second)
+		// scheduler explains; only a repeat is reported.  Once a hang has been confirmed in this process the short
+		// bound is trusted (so that shrinking a genuinely hanging case stays affordable).
+		run, err = recoverSnapshotBounded(snap, max, syncEvery, 120*time.Second)
+		if err != nil && strings.Contains(err.Error(), "hung") {
+			hangConfirmed = true
+		}
 	}
 	return run, err
 }
+
+var hangConfirmed bool
 
 func recoverSnapshotBounded(snap dqh.Snapshot, max, syncEvery int64, bound time.Duration) (run [][]byte, err error) {
 	dir := dqh.ScratchDir("c08r")
